@@ -100,7 +100,7 @@ package goat
 //@   ensures[C01.handler_once C20.handler_once C12.handler_once] bound("appErr") ==> ncalls("fnfield:H.google.golang.org/grpc.MethodDesc.Handler") == old(ncalls("fnfield:H.google.golang.org/grpc.MethodDesc.Handler")) + 1
 //@   ensures[C12.no_handler_for_bad_metadata] !bound("appErr") ==> ncalls("fnfield:H.google.golang.org/grpc.MethodDesc.Handler") == old(ncalls("fnfield:H.google.golang.org/grpc.MethodDesc.Handler")) && result.Status != nil && result.Status.Code != 0 && result.Body == nil
 //@   ensures[C03.success_has_no_status C06.unary_response] bound("appErr") && appErr == nil ==> result.Status == nil
-//@   ensures[C03.error_status] bound("appErr") && appErr != nil ==> result.Status != nil && (isStatus(appErr) ==> result.Status.Code == stCode(appErr) && result.Status.Message == stMsg(appErr) && result.Status.Details == stDetails(appErr))
+//@   ensures[C03.error_status] bound("appErr") && appErr != nil ==> result.Status != nil && (isStatus(appErr) && stCode(appErr) != 0 ==> result.Status.Code == stCode(appErr) && result.Status.Message == stMsg(appErr) && result.Status.Details == stDetails(appErr))
 //@   ensures[C03.plain_error_text] bound("appErr") && appErr != nil && !isStatus(appErr) ==> result.Status.Code != 0 && result.Status.Message == errText(appErr)
 //@   ensures[C03.error_never_ok] bound("appErr") && appErr != nil ==> result.Status != nil && result.Status.Code != 0
 //@   ensures[C01.reply_body] bound("resp") && resp != nil && bound("err") && err == nil ==> result.Body != nil && result.Body.Data == protoBytes(resp)
